@@ -144,6 +144,9 @@ def sigMenu (k : Nat) : Option Sig :=
   | 3 => some ⟨[.expref, .array], none⟩
   | 4 => some ⟨[.any], some .any⟩
   | 5 => some ⟨[.union [.typedArray .number, .typedArray .string]], none⟩
+  | 7 => some ⟨[.string], some .string⟩
+  | 8 => some ⟨[], some .number⟩
+  | 9 => some ⟨[.number], some (.union [.number, .null])⟩
   | _ => some ⟨[], none⟩
 
 def parseRegOp (s : String) : Option RegOp :=
